@@ -17,3 +17,22 @@ Print Assumptions C17_loader_reads_what_is_written.
 Theorem C17_subset_meaning : forall a b, subset a b = true <-> (forall x, In x a -> In x b).
 Proof. exact subset_spec. Qed.
 Print Assumptions C17_subset_meaning.
+
+(* the fluid's name round-trips: every FluidType member is recognised by its own name (the user's string, upper-cased) and stored as
+   itself, and to_input writes the stored member's name; no other string is recognised; every member reads property tables of its own;
+   concentration and temperature are written from what was stored and handed on unchanged by set_fluid (lists regenerated from media.py
+   and manager.py on every run) *)
+Theorem C17_fluid_name_round_trips : forall n, In n FluidType_names -> assoc n fluid_name_chain = Some n.
+Proof. exact fluid_name_round_trip. Qed.
+Print Assumptions C17_fluid_name_round_trips.
+
+Theorem C17_fluid_tables_complete_and_distinct :
+  map fst fluid_name_chain = FluidType_names /\ map fst fluid_mixture_codes = FluidType_names /\
+  nodup_str (map snd fluid_mixture_codes) = true /\
+  assoc "fluid_name" fluid_written_values = Some "self.fluid_type.name"%string /\
+  assoc "concentration_percent" fluid_written_values = Some "self.concentration_percent"%string /\
+  assoc "temperature" fluid_written_values = Some "self.temperature"%string /\
+  fluid_super_init_args = ["pos:fluid_map[fluid_str]"; "pos:percent"; "pos:temperature"]%string /\
+  wiring_set_fluid = ["fluid_str=fluid_name"; "percent=concentration_percent"; "temperature=temperature"]%string.
+Proof. exact fluid_tables. Qed.
+Print Assumptions C17_fluid_tables_complete_and_distinct.
